@@ -134,6 +134,8 @@ def check(ctx):
     repo = ctx.repo
     ctx.rule("R05.1", "label/content typestate on the CFG of _run_stage: every frame is saved with exactly as many updates "
                       "applied as its step label says, on every path incl. KeyboardInterrupt from the update and the writer", 1)
+    ctx.rule("R05.9", "the final step is saved exactly once: on the last iteration (stop test true) exactly one save executes, for "
+                      "both residues of the step index modulo save_every", 2)
     ctx.rule("R05.8", "the run stops at the first step whose time reaches the requested time: `self.time >= end_time` tested before each update", 2)
     ctx.rule("R05.2", "save points: in-loop save under `i % save_every == 0`, final save under the complementary residue test; both under `save`", 3)
     ctx.rule("R05.3", "per-step records: each name appended once per update outside the retry/screening loops, under the same guards "
@@ -168,6 +170,7 @@ def check(ctx):
                witness={"path": w, "example": "dt_init=1e-3 fixed, solve_time=0.0105, save_every=4: frame 'step 11' equals frame 'step 12' of a save_every=2 run"})
 
     stop_test(ctx, frs, cfg, ev)
+    final_step_saved_once(ctx, frs, cfg, ev)
     save_points(ctx, frs)
     records(ctx, frs)
     ranks(ctx)
@@ -653,3 +656,70 @@ def stop_test(ctx, frs, cfg, ev):
         ctx.ob("R05.8", "the stop test is evaluated before the update of the same iteration", ok and not via_true, detail={"update_calls": len(calls)},
                where=frs.fq, construct="stop test position", loc=loc(frs, stops[0][0]),
                message="the update runs before the stop test of its iteration", consequence="one update beyond the requested time is computed")
+
+
+def final_step_saved_once(ctx, frs, cfg, ev):
+    """Count SAVE events on every path of the *last* iteration (stop test taken) from the label to the function exit."""
+    fn = frs.node
+    labels = [nid for nid, e in ev.items() if e == "LABEL"]
+    if len(labels) != 1:
+        raise AnalysisError("expected one step-label statement in the loop of _run_stage")
+    start = labels[0]
+
+    def decide(node, assumption):
+        """-> allowed edge labels out of an `if` node under the assumption, or None for 'both'."""
+        t = node.ast.test
+        txt = norm(t)
+        if isinstance(t, ast.Compare) and "end_time" in txt and "self.time" in txt and len(t.ops) == 1:
+            return {"true"} if isinstance(t.ops[0], (ast.GtE, ast.Gt)) else {"false"}      # last iteration: the stop test fires
+        parts = t.values if isinstance(t, ast.BoolOp) and isinstance(t.op, ast.And) else [t]
+        vals = []
+        for p_ in parts:
+            rk = _residue_kind(p_)
+            if rk is not None:
+                vals.append(rk[0] == assumption)
+            elif norm(p_) == "save":
+                vals.append(True)
+            else:
+                vals.append(None)
+        if any(v is False for v in vals):
+            return {"false"}
+        if all(v is True for v in vals):
+            return {"true"}
+        return None
+    for assumption in ("zero", "nonzero"):
+        memo = {}
+
+        def counts(nid, depth=0):
+            if nid in memo:
+                return memo[nid]
+            if nid == cfg.exit:
+                return {0}
+            if depth > 400:
+                return {99}
+            memo[nid] = set()        # cycle guard
+            n = cfg.nodes[nid]
+            here = 1 if ev.get(nid) == "SAVE" else 0
+            allowed = None
+            if n.kind == "if" and n.ast is not None:
+                allowed = decide(n, assumption)
+            out = set()
+            for v, lab in cfg.succ[nid]:
+                if lab in ("exc", "loop", "continue"):
+                    continue
+                if allowed is not None and lab in ("true", "false") and lab not in allowed:
+                    continue
+                if v == cfg.raise_exit:
+                    continue
+                for c in counts(v, depth + 1):
+                    out.add(c + here)
+            memo[nid] = out
+            return out
+        cs = counts(start)
+        ctx.ob("R05.9", f"last iteration with step index % save_every {'== 0' if assumption == 'zero' else '!= 0'}: exactly one save",
+               cs == {1}, detail={"possible_numbers_of_saves": sorted(cs)}, where=frs.fq,
+               construct=f"saves on the last iteration ({assumption} residue)", loc=loc(frs, cfg.nodes[start].ast),
+               message=f"on the last iteration with residue {assumption} the number of saves can be {sorted(cs)} (must be exactly 1)",
+               consequence="the final step is not recorded (or recorded twice): e.g. a run that ends at step N with N % save_every == 0 "
+                           "loses frame N and the last save_every per-step records",
+               witness={"input": "fixed dt, N = 6 steps, save_every = 3"})
